@@ -5,288 +5,17 @@
 //! oracles.
 use std::collections::BTreeMap;
 use std::io::{Read, Write};
-use std::os::fd::{FromRawFd, IntoRawFd};
-use std::os::unix::net::UnixStream;
-use std::process::{Child, Command, Stdio};
 use std::time::{Duration, Instant};
 
-use prost::Message;
-use sozu::command::server::CommandHub;
-use sozu_command_lib::channel::Channel;
-use sozu_command_lib::config::{ConfigBuilder, FileConfig};
 use sozu_command_lib::proto::command::{
     request::RequestType, Cluster, HardStop, ListWorkers, QueryClustersHashes, QueryMetricsOptions,
     Request, Response, ResponseStatus, ReturnListenSockets, SoftStop, Status, WorkerRequest,
-    WorkerResponse,
 };
-use sozu_command_lib::scm_socket::ScmSocket;
 use verif_harness::*;
 
-// ------------------------------------------------------------- framing ----
-
-/// sozu's channel framing: little-endian `usize` length (delimiter included)
-/// followed by the prost payload.
-fn frame<M: Message>(m: &M) -> Vec<u8> {
-    let payload = m.encode_to_vec();
-    let mut v = (payload.len() + 8).to_le_bytes().to_vec();
-    v.extend_from_slice(&payload);
-    v
-}
-
-struct Peer {
-    sock: UnixStream,
-    buf: Vec<u8>,
-    eof: bool,
-}
-
-impl Peer {
-    fn new(sock: UnixStream) -> Self {
-        Peer { sock, buf: vec![], eof: false }
-    }
-    /// read whatever arrives within `wait`; returns complete frames' payloads
-    fn pump(&mut self, wait: Duration) {
-        let _ = self.sock.set_read_timeout(Some(wait.max(Duration::from_millis(1))));
-        let mut tmp = [0u8; 65536];
-        match self.sock.read(&mut tmp) {
-            Ok(0) => self.eof = true,
-            Ok(n) => self.buf.extend_from_slice(&tmp[..n]),
-            Err(_) => {}
-        }
-    }
-    /// read everything that is already in the socket buffer, without waiting
-    fn drain(&mut self) {
-        let _ = self.sock.set_nonblocking(true);
-        let mut tmp = [0u8; 65536];
-        loop {
-            match self.sock.read(&mut tmp) {
-                Ok(0) => {
-                    self.eof = true;
-                    break;
-                }
-                Ok(n) => self.buf.extend_from_slice(&tmp[..n]),
-                Err(_) => break,
-            }
-        }
-        let _ = self.sock.set_nonblocking(false);
-    }
-    fn take<M: Message + Default>(&mut self) -> Option<M> {
-        if self.buf.len() < 8 {
-            return None;
-        }
-        let len = usize::from_le_bytes(self.buf[..8].try_into().unwrap());
-        if len < 8 || self.buf.len() < len {
-            return None;
-        }
-        let m = M::decode(&self.buf[8..len]).ok();
-        self.buf.drain(..len);
-        m
-    }
-    /// wait up to `deadline` for one message
-    fn recv<M: Message + Default>(&mut self, deadline: Duration) -> Option<M> {
-        let t0 = Instant::now();
-        loop {
-            if let Some(m) = self.take::<M>() {
-                return Some(m);
-            }
-            if self.eof || t0.elapsed() >= deadline {
-                return None;
-            }
-            self.pump(Duration::from_millis(20).min(deadline.saturating_sub(t0.elapsed())));
-        }
-    }
-    fn send_raw(&mut self, bytes: &[u8]) -> bool {
-        self.sock.write_all(bytes).is_ok()
-    }
-}
-
-// ----------------------------------------------------------------- rig ----
-
-/// pid handed to `register_worker`: `close_worker` SIGKILLs it. ONE harmless
-/// sleeping child for the whole process, spawned before any case runs and
-/// never reaped before exit (so the pid cannot be recycled). No fork happens
-/// while cases run: a fork in another thread would briefly hold copies of this
-/// thread's socket ends and delay the HUP the hub sees when a worker "closes".
-static DUMMY_PID: std::sync::atomic::AtomicI32 = std::sync::atomic::AtomicI32::new(0);
-
-fn spawn_dummy() -> Child {
-    let dummy = Command::new("sleep")
-        .arg("100000")
-        .stdin(Stdio::null())
-        .stdout(Stdio::null())
-        .stderr(Stdio::null())
-        .spawn()
-        .expect("spawn dummy child");
-    DUMMY_PID.store(dummy.id() as i32, std::sync::atomic::Ordering::SeqCst);
-    dummy
-}
-
-struct Rig {
-    _dir: tempfile::TempDir,
-    sock_path: String,
-    hub: Option<std::thread::JoinHandle<Result<bool, String>>>,
-    /// harness ends of the worker channels (None once closed by the script)
-    workers: Vec<Option<Peer>>,
-    /// kernel thread id of the hub thread (to see where it blocks)
-    hub_tid: i64,
-}
-
-impl Rig {
-    fn start(nworkers: usize, timeout_s: u32) -> Rig {
-        Rig::start_small(nworkers, timeout_s, 0)
-    }
-
-    /// the last `small` workers get a channel whose ceiling (4 KiB) refuses a big request
-    fn start_small(nworkers: usize, timeout_s: u32, small: usize) -> Rig {
-        let dir = tempfile::Builder::new().prefix("vhub").tempdir_in("/tmp").expect("tempdir");
-        let sock_path = dir.path().join("s").to_string_lossy().to_string();
-        let pid = DUMMY_PID.load(std::sync::atomic::Ordering::SeqCst);
-        assert!(pid > 1, "dummy child not spawned");
-        let mut hub_ends = vec![];
-        let mut workers = vec![];
-        for id in 0..nworkers {
-            let (a, b) = UnixStream::pair().expect("socketpair");
-            a.set_nonblocking(true).unwrap();
-            let (s1, s2) = UnixStream::pair().expect("socketpair");
-            // keep the far end of the scm socket open for the life of the rig
-            hub_ends.push((id as u32, a.into_raw_fd(), s1.into_raw_fd(), s2.into_raw_fd()));
-            workers.push(Some(Peer::new(b)));
-        }
-        let (tx, rx) = std::sync::mpsc::channel::<Result<i64, String>>();
-        let path = sock_path.clone();
-        let state_dir = dir.path().to_string_lossy().to_string();
-        let hub = std::thread::Builder::new()
-            .name("hub".into())
-            .spawn(move || -> Result<bool, String> {
-                quiet_logs();
-                let r = std::panic::catch_unwind(std::panic::AssertUnwindSafe(|| {
-                    let listener = mio::net::UnixListener::bind(&path).map_err(|e| e.to_string())?;
-                    let fc = FileConfig {
-                        command_socket: Some(path.clone()),
-                        worker_count: Some(0),
-                        worker_automatic_restart: Some(false),
-                        worker_timeout: Some(timeout_s),
-                        saved_state: None,
-                        ..Default::default()
-                    };
-                    let config = ConfigBuilder::new(fc, format!("{state_dir}/config.toml"))
-                        .into_config()
-                        .map_err(|e| format!("config: {e}"))?;
-                    let mut hub = CommandHub::new(listener, config, "sozu".into()).map_err(|e| e.to_string())?;
-                    for (id, fd, scm, _far) in &hub_ends {
-                        // SAFETY: fds freshly created above, ownership moves into the channel / scm socket
-                        let stream = unsafe { mio::net::UnixStream::from_raw_fd(*fd) };
-                        let is_small = (*id as usize) + small >= nworkers;
-                        let ch: Channel<WorkerRequest, WorkerResponse> =
-                            if is_small { Channel::new(stream, 4096, 4096) } else { Channel::new(stream, 16384, 2_000_000) };
-                        let scm = ScmSocket::new(*scm).map_err(|e| e.to_string())?;
-                        hub.server.register_worker(*id, pid, ch, scm).map_err(|e| e.to_string())?;
-                    }
-                    // SAFETY: gettid has no preconditions
-                    let _ = tx.send(Ok(unsafe { libc::syscall(libc::SYS_gettid) } as i64));
-                    Ok::<bool, String>(hub.run())
-                }));
-                match r {
-                    Ok(x) => x,
-                    Err(e) => {
-                        let msg = if let Some(s) = e.downcast_ref::<&str>() {
-                            s.to_string()
-                        } else if let Some(s) = e.downcast_ref::<String>() {
-                            s.clone()
-                        } else {
-                            "panic".into()
-                        };
-                        Err(format!("hub panicked: {msg}"))
-                    }
-                }
-            })
-            .expect("spawn hub");
-        let hub_tid = match rx.recv_timeout(Duration::from_secs(10)) {
-            Ok(Ok(tid)) => tid,
-            other => {
-                let why = match hub.join() {
-                    Ok(Err(e)) => e,
-                    _ => format!("{other:?}"),
-                };
-                panic!("hub did not start: {why}");
-            }
-        };
-        Rig { _dir: dir, sock_path, hub: Some(hub), workers, hub_tid }
-    }
-
-    fn connect(&self) -> Peer {
-        let s = UnixStream::connect(&self.sock_path).expect("connect command socket");
-        Peer::new(s)
-    }
-
-    fn hub_finished(&self) -> bool {
-        self.hub.as_ref().map(|h| h.is_finished()).unwrap_or(true)
-    }
-
-    /// Two round trips through the hub's event loop on a private connection:
-    /// when this returns, every event written before the call has been handled,
-    /// at least one full loop iteration (task-finishing pass + flush of the
-    /// queued answers) has run after it.
-    fn sync(&self) -> bool {
-        if self.hub_finished() {
-            return false;
-        }
-        let Ok(s) = UnixStream::connect(&self.sock_path) else { return false };
-        let mut p = Peer::new(s);
-        for _ in 0..2 {
-            let req: Request = RequestType::ListWorkers(ListWorkers {}).into();
-            if !p.send_raw(&frame(&req)) {
-                return false;
-            }
-            match p.recv::<Response>(Duration::from_secs(5)) {
-                Some(_) => {}
-                None => return false,
-            }
-        }
-        true
-    }
-}
-
-impl Drop for Rig {
-    fn drop(&mut self) {
-        // stop the hub if it still runs: a hard stop with every worker channel closed
-        if !self.hub_finished() {
-            for w in self.workers.iter_mut() {
-                *w = None;
-            }
-            if let Ok(s) = UnixStream::connect(&self.sock_path) {
-                let mut p = Peer::new(s);
-                let req: Request = RequestType::HardStop(HardStop {}).into();
-                let _ = p.send_raw(&frame(&req));
-                let t0 = Instant::now();
-                while !self.hub_finished() && t0.elapsed() < Duration::from_secs(8) {
-                    p.pump(Duration::from_millis(50));
-                    p.buf.clear();
-                    if p.eof {
-                        std::thread::sleep(Duration::from_millis(10));
-                    }
-                }
-            }
-        }
-        if self.hub_finished() {
-            if let Some(h) = self.hub.take() {
-                let _ = h.join();
-            }
-        }
-    }
-}
-
-fn status_code(s: i32) -> char {
-    match ResponseStatus::try_from(s) {
-        Ok(ResponseStatus::Ok) => 'O',
-        Ok(ResponseStatus::Failure) => 'F',
-        Ok(ResponseStatus::Processing) => 'P',
-        Err(_) => '?',
-    }
-}
-
-fn wresp(id: &str, st: ResponseStatus, msg: &str) -> WorkerResponse {
-    WorkerResponse { id: id.to_string(), status: st as i32, message: msg.to_string(), content: None }
-}
+#[path = "../hubrig.rs"]
+mod hubrig;
+use hubrig::*;
 
 // --------------------------------------------------------------- probe ----
 
